@@ -233,14 +233,19 @@ def case_strategy(kind, first_row, src, path=None):
                       st.lists(step_strategy(kind), min_size=0, max_size=7)).map(lambda t: [t[0]] + t[1])
 
     def mk(t):
-        steps_, reopen = t
+        steps_, reopen, saves = t
         case = {"kind": kind.name, "src": src, "steps": steps_,
                 "reopen": sorted(set(r for r in reopen if r <= len(steps_)))}
+        # saves: the presentation object is saved (the file is thrown away) and goes on being used
+        sv = sorted(set(r for r in saves if r < len(steps_)))
+        if sv:
+            case["saves"] = sv
         if path is not None:
             case["path"] = path
         return case
 
-    return st.tuples(steps, st.lists(st.integers(0, 8), max_size=2)).map(mk)
+    return st.tuples(steps, st.lists(st.integers(0, 8), max_size=2),
+                     st.one_of(st.just([]), st.just([]), st.lists(st.integers(0, 7), max_size=2))).map(mk)
 
 
 # ------------------------------------------------------------------------------------ executor
@@ -372,7 +377,13 @@ def run_case(case, rec=None, count=True):
         return chain2
 
     try:
+        saves = set(case.get("saves", ()))
         for i, (prop, vclass, ev) in enumerate(steps):
+            if i in saves:
+                with core.sut("%s:save" % KK):
+                    chain[0].save(io.BytesIO())
+                classes.append("save:kept-using-object")
+                nontrivial = True
             if i in reopen:
                 chain = do_reopen(chain)
                 classes.append("reopen:mid" if i else "reopen:first")
